@@ -1,7 +1,7 @@
 PROP = dict(
     id="C08",
-    lean_modules=["TongoProofs.C08"],
-    gen=[],
+    lean_modules=["TongoProofs.C08", "TongoProofs.C08Gen"],
+    gen=["TlbTypes"],
     spec_ops=(),
     rule="TL: every type with an UnmarshalTL in liteclient (registry re-checked against the source with go/ast on every run) plus "
          "synthetic types for the generic decoder x {valid encodings from the real Marshal, truncation at every offset, bit "
@@ -26,6 +26,9 @@ PROP = dict(
         "decodeLength/processQueryAnswer, liteclient/decoder.go), Helpers08.lean (index helpers), TlbRead.lean (cell reading "
         "primitives, tlb/hashmap.go labels and walk, countLeafs, SnakeData, BinTree, VM stack list) tied to the code by "
         "line-by-line correspondence on every run",
+        "agent tlb's model of the reflection decoder lean/TongoModel/Tlb/{Ty,Basic,Prims,Dec}.lean and translator X1 "
+        "(TongoGen/TlbTypes.lean), tied to the code by property C03's correspondence; lean/TongoModel/Tlb/DecTotal.lean "
+        "(weights, ranks, productivity check, fuel bound) is definitions only",
         "TL descriptors (field order, mode bits, sum tags, request tag table) regenerated from liteclient/generated.go by "
         "go/ast and from reflection on every run; a construct outside the translator's subset fails the run",
         "runtime.MemStats.TotalAlloc and wall-clock deadlines as the measure of allocation and time on the Go side",
@@ -41,10 +44,22 @@ PROP = dict(
         "exotic cells make Cell.Hash() panic (boc/immutable_cell.go): known finding, kept in a separate stream",
     ],
     partial=[
-        "no theorem for the reflection-driven generic TL-B decoder (tlb/decoder.go over ~930 shipped types) nor for the "
-        "unmodelled hand-written UnmarshalTLB methods (Message, Transaction, MsgAddress, Anycast, VarUInteger, Grams, "
-        "BlockInfo, ValueFlow, McBlockExtra, ShardState, DNS records, wallet and abi payload decoders, VmStkTuple cell "
-        "decoding): covered by the fault-injection oracles only (go.tlb.fuzz / go.tlb.one / go.abi.dec / go.proof)",
+        "generic TL-B decoder: tlb_decode_total is about agent tlb's model Tongo.Tlb.decode (tied to tlb/decoder.go by C03's "
+        "correspondence, not by this property); where a descriptor contains an `opaque`/`encErr`/non-empty `dictE` node the "
+        "model stops with an error, so the theorem says nothing about the Go code behind it: non-empty Hashmap/HashmapE/"
+        "HashmapAug(E) (walk and labels: hashmap_total, countLeafs_total, label_total), BinTree, ChunkedData (binTree_total, "
+        "snake_steps), BlockInfo, McBlockExtra, McStateExtraOther, ValueFlow, ShardState, CryptoSignature, DNSRecord, "
+        "DNSText, VmStkTuple/VmTuple/VmCont, abi.InMsgBody/ExtOutMsgBody/JettonPayload/NFTPayload/W5Actions/"
+        "W5ExtendedActions/WalletV1ToV4Payload, wallet.PayloadHighload/W5ExtendedActions/TextComment: fault-injection "
+        "oracles only (go.tlb.fuzz / go.tlb.flags / go.tlb.one / go.abi.dec / go.proof), with every flag branch seeded "
+        "(evidence/C08_branches.txt: 349 of 358 non-error blocks of the 56 hand-written UnmarshalTLB methods reached by an "
+        "accepted seed)",
+        "tlb_decode_steps bounds the DEPTH of the decoder's recursion (fuel), linear in the cells of the unfolded tree; the "
+        "TOTAL number of decoder calls is not bounded by a theorem (needs an instrumented copy of the decoder): time is "
+        "checked by the deadline oracles",
+        "no unconditional `decode != panic` theorem is claimed for the generic decoder: in agent tlb's model no path "
+        "constructs a panic, the statement would be true by construction; the partiality that IS modelled is divergence "
+        "(fuel), and Go-side reflect panics (CanSet, nil cell from a custom decoder) are covered by the oracles",
         "tl_decode_alloc / tl_decode_steps need ty.wf (every vector element consumes >= 1 byte): true of every shipped "
         "descriptor (checked per descriptor on every run, op tld.consts); for zero-width elements the step bound is FALSE "
         "(theorem tl_steps_zero_width_elements: 4 bytes drive up to 2^32-1 iterations) — recorded as a limit, not repaired",
@@ -82,8 +97,18 @@ PROP = dict(
         "TIE: 13k lines per quick run executed on the real code and on the compiled model and compared exactly (outcome "
         "class, bytes consumed, allocation class for TL; decoded keys / data / counts for the TL-B customs; helper "
         "outcomes). "
-        "ORACLES ONLY (no theorem): the reflection-driven TL-B decoder over all ~930 exported types and the unmodelled "
-        "customs, the abi message decoders and get-method result decoders (VmStack / VmStackValue / VmStkTuple.Unmarshal reflection "
+        "(TL-B, generic decoder — agent tlb's model) tlb_decode_total: for every PRODUCTIVE type environment (decidable "
+        "check prodb: a named type re-enters, before a bit or a reference is consumed, only named types of smaller rank), "
+        "EVERY descriptor and EVERY cell tree (exotic cells, pruned branches, short cells, missing refs) the decoder with "
+        "`need` fuel or more neither panics nor runs out of fuel and only consumes — `need` is explicit and linear in the "
+        "input (tlb_decode_steps: <= 1024*C*cells + R*D + depth(T)); tlb_decode_unproductive_diverges: `type T struct{X *T}` "
+        "(the shape of tlb.HashMapAugExtraList, the known fatal stack overflow) is out of fuel for every fuel and is "
+        "rejected by the check; tlb_prim_decoders_total: all 19 hand-written decoders modelled as Prim are total and their "
+        "internal loops have enough fuel; C08Gen: generated_env_productive (re-decided on every run on the regenerated "
+        "environment of 501 named types; ranks <= 4, depth 26) and tlb_decode_total_generated (every descriptor over it, "
+        "in particular the 711 regenerated ones). "
+        "ORACLES ONLY (no theorem): the hand-written decoders that are opaque in the descriptors (listed in `partial`), the "
+        "reflect glue on the Go side, the abi message decoders and get-method result decoders (VmStack / VmStackValue / VmStkTuple.Unmarshal reflection "
         "glue), the proof decoders: ~100 (quick) / ~3000 (thorough) damaged trees per type, "
         "never a panic or fatal error, TotalAlloc <= 64*|unfolded tree| + 1 MiB, deadline proportional to the unfolded "
         "tree. Types without any valid seed encoding are listed in the evidence (distribution no_valid_seed:*)."
